@@ -4,6 +4,7 @@ import (
 	"crypto/sha256"
 	"encoding/json"
 	"fmt"
+	"os"
 	"regexp"
 	"strconv"
 	"strings"
@@ -262,9 +263,14 @@ func c05Check(c execCase, r *h.Rec) error {
 		return h.Inconcf("child: %v", err)
 	}
 	if res.BuildErr != "" {
+		if !strings.Contains(res.BuildErr, "_gen.go:") && strings.Contains(res.BuildErr, "zz_verif_crud_test.go:") {
+			// the generated files compile, the calls written from the reference model of the generated API
+			// (names, arities and result shapes the property spells out) do not: the API is not the modelled one
+			return h.Violf("the generated CRUD code compiles but does not offer the functions / result shapes the model expects (by-foreign-key returns a collection unless the column alone is UNIQUE, by-unique returns one row, ...):\n%s\n%s", clip(res.BuildErr, 1500), src())
+		}
 		r.Class("skipped:child_does_not_build(C01)")
 		r.Add("child_build_failures", 1)
-		if r.Confirm {
+		if r.Confirm || os.Getenv("VERIF_DEBUG") != "" {
 			fmt.Println("child build error:", clip(res.BuildErr, 3000))
 		}
 		return nil
